@@ -25,6 +25,7 @@ type zzStream struct {
 	writes  int
 	failAt  int // fail the k-th Write (1-based) when > 0
 	eof     bool
+	onWrite func(p []byte) // called (outside the stream lock) before Write returns
 }
 
 var errZZClosed = errors.New("use of closed connection")
@@ -62,12 +63,17 @@ func (s *zzStream) Write(p []byte) (int, error) {
 	default:
 	}
 	s.mu.Lock()
-	defer s.mu.Unlock()
 	s.writes++
 	if s.failAt > 0 && s.writes == s.failAt {
+		s.mu.Unlock()
 		return 0, errors.New("injected write failure")
 	}
 	s.out = append(s.out, p...)
+	hook := s.onWrite
+	s.mu.Unlock()
+	if hook != nil {
+		hook(p)
+	}
 	return len(p), nil
 }
 
